@@ -37,7 +37,7 @@ TIERS = {
 }
 FLOORS = {
     "quick": {"counts": {"stored_samples_checked": 150000, "outside_queries": 5000, "hull_queries": 2500,
-                         "paths_checked": 3000, "dropped_candidates_checked": 20000}, "keys": 60},
+                         "paths_checked": 2500, "dropped_candidates_checked": 20000}, "keys": 60},
     "thorough": {"counts": {"stored_samples_checked": 7000000, "paths_checked": 150000}, "keys": 90},
 }
 
